@@ -207,7 +207,7 @@ class Ctx:
         m = re.search(r'<<"CONFIRMED", (\d+)>>', out)
         if m:
             self.classes["trace_confirmations"] = self.classes.get("trace_confirmations", 0) + int(m.group(1))
-        rej = re.search(r'<<"(?:REJECTED at event|BAD RECORD)", (\d+), (.*)>>', out)
+        rej = re.search(r'<<\s*"(?:REJECTED at event|BAD RECORD)",\s*(\d+),\s*(.*?)>>', out, re.S)
         ok = ("Model checking completed. No error has been found" in out) and not rej and not st.get("spec_violation")
         if ok:
             self.traces += 1
